@@ -339,12 +339,17 @@ class ArgumentParser(argparse.ArgumentParser):
 
             # Adding it here just so it shows up in the help message. The default will be set in
             # the help string.
-            self.add_argument(
-                f"--{config_path_name}",
-                type=Path,
-                default=config_path,
-                help="Path to a config file containing default values to use.",
-            )
+            config_path_action = self._option_string_actions.get(f"--{config_path_name}")
+            if config_path_action is None:
+                self.add_argument(
+                    f"--{config_path_name}",
+                    type=Path,
+                    default=config_path,
+                    help="Path to a config file containing default values to use.",
+                )
+            else:
+                # This parser has already been used: the argument is there, just update its default.
+                config_path_action.default = config_path
 
         assert isinstance(args, list)
         self._preprocessing(args=args, namespace=namespace)
